@@ -5,16 +5,21 @@ import ast
 from typing import Dict, List, Optional, Set
 
 from ..vals import root_of
-from .common import CURVE_FIELDS, R, seg
+from .common import CURVE_FIELDS, R, reach_cut, seg
 from .c08 import path_facts
 
 
 # ------------------------------------------------------------------------------------------------
 # MEMO-KEY: no value-keyed memoisation on the numeric layer (== conflates 1, 1.0 and Fraction(1))
-def memo_key(r: R, chk, rule="MEMO-KEY"):
+def memo_key(r: R, chk, rule="MEMO-KEY", entries=None):
     n = 0
+    only = None
+    if entries is not None:
+        from .divisions import reachable_functions
+
+        only = set(reachable_functions(r, entries))
     for fi in r.prog.all_functions():
-        if fi.module == "__classes__":
+        if fi.module == "__classes__" or (only is not None and fi.qual not in only):
             continue
         n += 1
         bad = None
@@ -326,8 +331,9 @@ def interval_from_operand(r: R, chk, quals: List[str], rule="INTERVAL", floor: i
 DEDUP_CALLS = ("set", "frozenset", "np.unique", "dict.fromkeys")
 
 
-def dedup_taint(fi):
-    """names holding de-duplicated knots / nodes (flow-insensitive): `.knots`, set(...), __get_unique(...), np.unique(...)"""
+def dedup_taint(fi, filtered: bool = False):
+    """names holding de-duplicated knots / nodes (flow-insensitive): `.knots`, set(...), __get_unique(...), np.unique(...);
+    with `filtered` also collections some of whose members were dropped by a comprehension filter / filter()"""
     conts, elems = set(), set()
 
     def is_dd(e) -> bool:
@@ -338,6 +344,8 @@ def dedup_taint(fi):
         if isinstance(e, ast.Call):
             fn = seg(e.func)
             if fn in DEDUP_CALLS or fn.endswith("get_unique"):
+                return True
+            if filtered and fn == "filter":
                 return True
             if fn in ("tuple", "list", "sorted") and e.args:
                 return is_dd(e.args[0])
@@ -351,6 +359,8 @@ def dedup_taint(fi):
                 return is_dd(e.left) or is_dd(e.right)
             return False
         if isinstance(e, (ast.ListComp, ast.GeneratorExp)):
+            if filtered and any(g.ifs for g in e.generators):
+                return True
             loc = set()
             for g in e.generators:
                 if is_dd(g.iter):
@@ -381,13 +391,14 @@ def dedup_taint(fi):
     return conts, elems, is_dd
 
 
-def mult_keep(r: R, chk, quals: List[str], rule="MULT-KEEP", floor: int = 1):
+def mult_keep(r: R, chk, quals: List[str], rule="MULT-KEEP", floor: int = 1, filtered: bool = False):
     """sinks: arguments of knot-vector constructors and of insertion requests"""
     n = 0
     for q in quals:
         ctx = r.root(q)
         fi = ctx.fi
         conts, elems, is_dd = dedup_taint(fi)
+        is_flt = dedup_taint(fi, True)[2] if filtered else is_dd
         for c in ast.walk(fi.node):
             sink = None
             if isinstance(c, ast.Call) and c.args:
@@ -399,13 +410,401 @@ def mult_keep(r: R, chk, quals: List[str], rule="MULT-KEEP", floor: int = 1):
             elif isinstance(c, ast.BinOp) and isinstance(c.op, ast.Add):
                 lv = ctx.val(c.left)
                 if lv is not None and any(t in ("inst:KnotVector", "inst:ImmutableKnotVector") for t in lv.ty):
-                    sink = (c.right, "an insertion is requested with")
+                    # the knot vector's own `+` is what refuses an impossible request: it must see the whole request
+                    sink = (c.right, "an insertion is requested with", True)
             if sink is None:
                 continue
             n += 1
-            e, what = sink
-            ok = not is_dd(e)
+            e, what = sink[:2]
+            ok = not (is_flt(e) if len(sink) > 2 else is_dd(e))
             chk.ob(rule, f"{q}: `{seg(c, 50)}` keeps multiplicities", ok, loc=r.loc(ctx, c),
-                   detail="" if ok else f"{q}: {what} `{seg(e, 40)}`, a de-duplicated collection (distinct knots / a set) used without its multiplicities: repeated knots / repeated nodes are silently collapsed",
+                   detail="" if ok else f"{q}: {what} `{seg(e, 40)}`, a de-duplicated {'or filtered ' if filtered else ''}collection (distinct knots / a set{' / a comprehension that drops members' if filtered else ''}) used without its multiplicities: repeated knots / repeated nodes are silently collapsed{' or part of the request is silently ignored instead of being refused' if filtered else ''}",
                    func=q, construct=f"de-duplicated values become knots: {seg(e, 40)}")
     chk.floor(rule, "knot-vector constructions / insertion requests", n, floor)
+
+
+# ------------------------------------------------------------------------------------------------
+# REFLECTED: a reflected non-commutative operator is not the direct operator with the operands in the direct order
+REFLECTED = (("__rsub__", "__sub__", ast.Sub), ("__rmatmul__", "__matmul__", ast.MatMult), ("__rtruediv__", "__truediv__", ast.Div))
+
+
+def reflected_ops(r: R, chk, cls: str = "curves.BaseCurve", only=None, rule="REFLECTED"):
+    """`x OP curve` must not be computed as `curve OP x` for OP in - @ /: the value returned by __rOP__(self, other) is not
+    the unchanged result of self.__OP__(other) / `self OP other`; and for @ no product inside __rmatmul__ has the bare left
+    operand `other` on the right of something computed from the curve's control points."""
+    n = 0
+    ci = r.prog.cls(cls.split(".")[-1])
+    for rop, op, aop in REFLECTED:
+        if only is not None and rop not in only:
+            continue
+        q = f"{cls}.{rop}"
+        if not r.prog.has_func(q):
+            alias = ci.attrs.get(rop)
+            if alias is not None:
+                n += 1
+                ok = not (isinstance(alias, ast.Name) and alias.id == op)
+                chk.ob(rule, f"{cls}: `{rop} = {seg(alias, 30)}` is not the direct operator", ok, loc=f"curves.py:{alias.lineno}",
+                       detail="" if ok else f"{cls}: `{rop} = {op}` makes `x {_sym(aop)} curve` the same as `curve {_sym(aop)} x`, which is wrong for a non-commutative operator", func=q, construct=f"{rop} aliases {op}")
+            continue
+        ctx = r.root(q)
+        fi = ctx.fi
+        if len(fi.params) < 2:
+            continue
+        me, oth = fi.params[0], fi.params[1]
+        rebound = any(isinstance(x, ast.Name) and x.id in (me, oth) and isinstance(x.ctx, ast.Store) for x in ast.walk(fi.node))
+        for ret in [x for x in ast.walk(fi.node) if isinstance(x, ast.Return) and x.value is not None]:
+            n += 1
+            v = ret.value
+            direct = False
+            if isinstance(v, ast.BinOp) and isinstance(v.op, aop) and isinstance(v.left, ast.Name) and v.left.id == me and isinstance(v.right, ast.Name) and v.right.id == oth:
+                direct = True
+            if isinstance(v, ast.Call) and isinstance(v.func, ast.Attribute) and v.func.attr == op and isinstance(v.func.value, ast.Name) and v.func.value.id == me and len(v.args) == 1 and isinstance(v.args[0], ast.Name) and v.args[0].id == oth:
+                direct = True
+            ok = not (direct and not rebound)
+            chk.ob(rule, f"{q}: `{seg(ret, 40)}` is not `{me} {_sym(aop)} {oth}` unchanged", ok, loc=r.loc(ctx, ret),
+                   detail="" if ok else f"{q}: returns `{seg(v, 40)}`, i.e. computes `x {_sym(aop)} curve` as `curve {_sym(aop)} x`: for a non-commutative operator (a non-symmetric matrix on the left, a subtrahend, a dividend) the result is the wrong curve",
+                   func=q, construct=f"{rop} delegates to {op} with the operands in the direct order")
+        if aop is ast.MatMult:
+            for b in [x for x in ast.walk(fi.node) if isinstance(x, ast.BinOp) and isinstance(x.op, ast.MatMult)]:
+                n += 1
+                lv = ctx.val(b.left)
+                left_is_points = lv is not None and any(d[0] == "PF" and d[1] == 0 and d[2] == CURVE_FIELDS[1] for d in lv.all_dep())
+                bad = isinstance(b.right, ast.Name) and b.right.id == oth and not rebound and left_is_points
+                chk.ob(rule, f"{q}: `{seg(b, 40)}` keeps `{oth}` on the left", not bad, loc=r.loc(ctx, b),
+                       detail="" if not bad else f"{q}: `{seg(b, 40)}` multiplies a control point by `{oth}` from the right although `{oth}` is the LEFT operand of `{oth} @ curve`: (M@A)(u) becomes A(u)@M",
+                       func=q, construct="left operand applied from the right")
+    chk.floor(rule, "reflected non-commutative operators examined", n, 1)
+
+
+def _sym(aop):
+    return {ast.Sub: "-", ast.MatMult: "@", ast.Div: "/"}[aop]
+
+
+# ------------------------------------------------------------------------------------------------
+# SAME-INTERVAL: "different intervals raise" is an equality of both ends, not a containment of one interval in the other
+def same_interval(r: R, chk, ctx, guards, q: str, rule="SAME-INTERVAL"):
+    """atoms of the ValueError guards that compare the two operands: an ==/!= between data of either operand decides equality;
+    `a.valid(b...)` only decides that b lies inside a. One-directional containment alone accepts a narrower right (or left)
+    operand, so U|V succeeds where V|U raises."""
+    eq, cont, other_calls = False, set(), 0
+
+    def roots(e):
+        v = ctx.val(e)
+        if v is None:
+            return set()
+        return {d[1] for d in v.all_dep() if d[0] in ("P", "PF") and d[1] in (0, 1)}
+
+    for g in guards:
+        for c in ast.walk(g[0].ast):
+            if isinstance(c, ast.Compare) and len(c.ops) == 1 and isinstance(c.ops[0], (ast.Eq, ast.NotEq)):
+                a, b = roots(c.left), roots(c.comparators[0])
+                if (a == {0} and b == {1}) or (a == {1} and b == {0}):
+                    eq = True
+            elif isinstance(c, ast.Call):
+                crs = [cr for cr in ctx.calls if cr.node is c]
+                names = {f.name for cr in crs for f in cr.callees}
+                if names and all(nm == "valid" for nm in names) and isinstance(c.func, ast.Attribute) and c.args:
+                    a, b = roots(c.func.value), roots(c.args[0])
+                    if len(a) == 1 and len(b) == 1 and a != b:
+                        cont.add((next(iter(a)), next(iter(b))))
+                        continue
+                if names:
+                    other_calls += 1
+    onesided = bool(cont) and not ((0, 1) in cont and (1, 0) in cont)
+    bad = not eq and onesided and other_calls == 0
+    loc = r.loc(ctx, guards[0][0].ast) if guards else r.loc(ctx, ctx.fi.node)
+    chk.ob(rule, f"{q}: the interval guard compares both ends for equality (or containment both ways)", not bad, loc=loc,
+           detail="" if not bad else f"{q}: the only test between the operands' intervals is `{seg(guards[0][0].ast, 50)}` — a containment of one interval in the other, not an equality: an operand whose interval lies inside the other's is accepted, so different intervals do not raise ValueError and U|V / V|U disagree",
+           func=q, construct="interval guard is a one-sided containment")
+
+
+# ------------------------------------------------------------------------------------------------
+# FORM-SELECT: scalar argument -> one value, sequence argument -> a sequence, decided by the FORM of the argument
+FORM_PROBES = ("tuple", "list", "iter", "len")
+FORM_TESTS = ("isinstance", "hasattr", "np.ndim", "np.isscalar", "np.iterable")
+
+
+def form_select(r: R, chk, qual: str, param: str, rule="FORM-SELECT", max_paths: int = 4000):
+    """path-sensitive over the function's CFG: paths are grouped by the outcome of the first probe of the argument's form
+    (`tuple(param)` raising TypeError, or an isinstance-like test on the parameter); along each path constants assigned to
+    local flags are propagated so that `x[0] if flag else x` is resolved.  Obligation: inside one group every path returns the
+    same shape (the whole evaluated container / one element of it), and for the try-probe the TypeError group returns one
+    element and the other group the whole container."""
+    ctx = r.root(qual)
+    cfg, fi = ctx.cfg, ctx.fi
+    CONT = {"tuple", "list", "ndarray", "inst:ndarray"}
+
+    def is_probe(n):
+        if n.kind != "stmt" or n.ast is None:
+            return False
+        hit = any(isinstance(c, ast.Call) and seg(c.func) in FORM_PROBES and len(c.args) == 1 and isinstance(c.args[0], ast.Name) and c.args[0].id == param for c in ast.walk(n.ast))
+        if not hit:
+            return False
+        for t, lab in n.succ:
+            if lab == "exc" and cfg.nodes[t].kind == "handler":
+                from ..cfg import handler_types
+
+                if "TypeError" in handler_types(cfg.nodes[t].ast) or any(x in ("Exception", "BaseException") for x in handler_types(cfg.nodes[t].ast)):
+                    return True
+        return False
+
+    def is_formtest(n):
+        return n.kind == "test" and any(isinstance(c, ast.Call) and seg(c.func) in FORM_TESTS and c.args and isinstance(c.args[0], ast.Name) and c.args[0].id == param for c in ast.walk(n.ast))
+
+    probes = [n for n in cfg.nodes if is_probe(n)]
+    tests = [n for n in cfg.nodes if is_formtest(n)]
+    chk.floor(rule, f"probes of the form of `{param}` in {qual}", len(probes) + len(tests), 1)
+
+    def shape(e, env):
+        """set of shapes an expression may have: 'whole' | 'elem' | 'unk'"""
+        if isinstance(e, ast.IfExp):
+            t = truth(e.test, env)
+            if t is True:
+                return shape(e.body, env)
+            if t is False:
+                return shape(e.orelse, env)
+            return shape(e.body, env) | shape(e.orelse, env)
+        if isinstance(e, ast.Name):
+            s = env.get(e.id)
+            if isinstance(s, frozenset):
+                return set(s)
+        if isinstance(e, ast.Subscript) and not isinstance(e.slice, ast.Slice):
+            idx = e.slice
+            if isinstance(idx, ast.UnaryOp):
+                idx = idx.operand
+            if isinstance(idx, ast.Constant) and isinstance(idx.value, int) and "whole" in shape(e.value, env):
+                return {"elem"}
+        v = ctx.val(e)
+        if v is not None and v.ty and v.ty <= CONT:
+            return {"whole"}
+        return {"unk"}
+
+    def truth(t, env):
+        if isinstance(t, ast.Name):
+            s = env.get(t.id)
+            if isinstance(s, tuple) and s[0] == "const":
+                return bool(s[1])
+            return None
+        if isinstance(t, ast.UnaryOp) and isinstance(t.op, ast.Not):
+            x = truth(t.operand, env)
+            return None if x is None else not x
+        if isinstance(t, ast.Constant):
+            return bool(t.value)
+        return None
+
+    results = {}  # group -> {shape: example return node}
+    count = [0]
+
+    def step_env(n, env):
+        a = n.ast
+        if n.kind == "stmt" and isinstance(a, ast.Assign) and len(a.targets) == 1 and isinstance(a.targets[0], ast.Name):
+            env = dict(env)
+            if isinstance(a.value, ast.Constant):
+                env[a.targets[0].id] = ("const", a.value.value)
+            else:
+                env[a.targets[0].id] = frozenset(shape(a.value, env))
+        return env
+
+    def walk(nid, env, group, seen):
+        if count[0] > max_paths:
+            return
+        n = cfg.nodes[nid]
+        if n.kind == "stmt" and isinstance(n.ast, ast.Return):
+            count[0] += 1
+            for s in (shape(n.ast.value, env) if n.ast.value is not None else {"unk"}):
+                results.setdefault(group, {}).setdefault(s, n)
+            return
+        if n.kind == "test":
+            t = truth(n.ast, env)
+        else:
+            t = None
+        env2 = step_env(n, env)
+        for tgt, lab in n.succ:
+            if (nid, tgt) in seen:
+                continue
+            if lab == "exc" and cfg.nodes[tgt].kind != "handler":
+                continue
+            if n.kind == "test" and t is not None and lab in ("t", "f") and (lab == "t") != t:
+                continue
+            g = group
+            if g is None:
+                if n in probes:
+                    g = ("probe", "TypeError" if lab == "exc" else "no TypeError")
+                elif n in tests and lab in ("t", "f"):
+                    g = ("test", f"`{seg(n.ast, 40)}` is {'true' if lab == 't' else 'false'}")
+            # an assignment that raised did not happen
+            walk(tgt, env if lab == "exc" else env2, g, seen | {(nid, tgt)})
+
+    walk(cfg.entry, {}, None, frozenset())
+    groups = {g: v for g, v in results.items() if g is not None}
+    chk.floor(rule, f"return paths behind a form probe in {qual}", len(groups), 2)
+    for g, shp in sorted(groups.items()):
+        names = sorted(shp)
+        want = None
+        if g[0] == "probe":
+            want = "elem" if g[1] == "TypeError" else "whole"
+        if want == "elem":
+            # a scalar became a one-node sequence: a length test cannot go wrong here, only never returning an element is
+            ok = "elem" in names or names == ["unk"]
+        else:
+            ok = len(names) == 1 and (want is None or names[0] in (want, "unk"))
+        badnode = next((shp[s] for s in names if s != want), next(iter(shp.values())))
+        what = {"elem": "one element of the evaluated sequence", "whole": "the whole evaluated sequence", "unk": "a value of undetermined shape"}
+        chk.ob(rule, f"{qual}: when {g[1]} ({'scalar' if want == 'elem' else 'sequence' if want == 'whole' else 'one form'} of `{param}`) the result has one shape", ok, loc=r.loc(ctx, badnode.ast),
+               detail="" if ok else f"{qual}: on the paths where {g[1]} — `{param}` is a {'scalar' if want == 'elem' else 'sequence' if want == 'whole' else 'given form'} — `{seg(badnode.ast, 50)}` may return {' or '.join(what[s] for s in names)}: whether one point or a sequence comes back is not decided by the form of the argument (a one-node sequence and a scalar are confused)",
+               func=qual, construct=f"result shape not decided by the form of {param} ({g[1]})")
+    if len(groups) == 2 and all(len(v) == 1 for v in groups.values()):
+        a, b = [next(iter(v)) for v in groups.values()]
+        ok = a != b or "unk" in (a, b)
+        chk.ob(rule, f"{qual}: the two forms of `{param}` give different shapes", ok, loc=r.loc(ctx, fi.node), detail="" if ok else f"{qual}: scalar and sequence arguments both return {a}", func=qual, construct="both forms return the same shape")
+
+
+# ------------------------------------------------------------------------------------------------
+# PRECHECK-LEN: the control-point setter refuses a list whose length is not npts of the (already rebound) knot vector
+def precheck_len(r: R, chk, qual: str, rule="PRECHECK-LEN"):
+    """`qual` rebinds the knot vector and then hands new control points to the validating setter.  The setter raises ValueError
+    when len(points) != npts — after the commit began.  Obligation: every earlier state write on a path to that setter call is
+    reached only through the passing edge of a ValueError guard whose condition depends on BOTH the new knot vector and the
+    data the new points are computed from (a compatibility test done while the curve is still untouched)."""
+    ctx = r.root(qual)
+    fi = ctx.fi
+    writes = r.write_nodes(ctx, 0)
+    n = 0
+    for cr in ctx.calls:
+        if cr.kind != "setter" or not any(f.qual == "curves.BaseCurve.ctrlpoints.setter" for f in cr.callees):
+            continue
+        stmt = ctx.cfg.nodes[cr.cfgnode].ast
+        val = stmt.value if isinstance(stmt, ast.Assign) else None
+        if val is None or (isinstance(val, ast.Constant) and val.value is None):
+            continue
+        recv = cr.args[0].get("self") if cr.args else None
+        if recv is None or not any(root_of(o) == 0 for o in recv.pts):
+            continue
+        before = [w for w in writes if w != cr.cfgnode and cr.cfgnode in ctx.cfg.reachable_from_succ(w, exc=False)]
+        if not before:
+            continue
+        vv = ctx.val(val)
+        vdeps = {d for d in (vv.all_dep() if vv is not None else ()) if d[0] == "P" and d[1] != 0}
+        kv_params = {("P", i) for i, p in enumerate(fi.params) if "knotvector" in p or "vector" in p}
+        data_params = vdeps - kv_params
+        n += 1
+        guards = []
+        for g in r.raise_guards(ctx, ("ValueError",)):
+            gv = ctx.val(g[0].ast)
+            if gv is None:
+                continue
+            gd = gv.all_dep()
+            if any(k in gd for k in kv_params) and any(d in gd for d in data_params):
+                guards.append(g)
+        cut = {(g[0].id, g[1]) for g in guards}
+        free = reach_cut(ctx, [ctx.cfg.entry], cut_edges=cut)
+        bad = [w for w in before if w in free]
+        ok = bool(guards) and not bad
+        chk.ob(rule, f"{qual}: `{seg(stmt, 40)}` after the commit began — compatibility of the new points with the new knot vector tested before the first write", ok, loc=r.loc(ctx, stmt),
+               detail="" if ok else f"{qual}: `{seg(stmt, 50)}` runs after state has already been written ({r.loc(ctx, ctx.cfg.nodes[min(bad or before)].ast)}); the control-point setter raises ValueError when the number of points is not npts of the new knot vector, and no ValueError test relating `{', '.join(fi.params[d[1]] for d in sorted(kv_params))}` to `{', '.join(fi.params[d[1]] for d in sorted(data_params))}` precedes that write on every path: a transformation that does not fit the new vector (knot_insert([umin, umax]) raises the degree of the vector but not of the points) leaves the curve with its control points cleared",
+               func=qual, construct="control-point setter may refuse after the commit began")
+    chk.floor(rule, f"control-point commits after an earlier write in {qual}", n, 1)
+
+
+# ------------------------------------------------------------------------------------------------
+# JACOBIAN: a span-by-span quadrature with reference weights (sum 1 on [0, 1]) multiplies each span's sum by the span length
+def jacobian(r: R, chk, quals: List[str], rule="JACOBIAN"):
+    """in `for a, b in zip(knots[:-1], knots[1:])` loops that use reference quadrature weights, every accumulated term
+    (`X += …`, `X.append(…)`) has a multiplicative factor computed from the difference of the loop's pair (directly, through a
+    local of the loop body, or folded into the weights); the reference nodes being mapped with `a + (b - a) * node` is not that
+    factor.  Without it every span counts the same whatever its length: for non-uniform knots the Gram matrices are not the L2
+    inner products and the integral is not the integral."""
+    from .c10 import IA, funcrefs
+
+    total = 0
+    for q in quals:
+        ctx = r.root(q)
+        fi = ctx.fi
+        wnames = set()
+        for a in ast.walk(fi.node):
+            if isinstance(a, ast.Assign) and len(a.targets) == 1 and isinstance(a.targets[0], ast.Name):
+                calls = [c for c in ast.walk(a.value) if isinstance(c, ast.Call)]
+                if any(any(f.startswith(IA) for f in funcrefs(ctx, c.func)) for c in calls) or any(isinstance(x, ast.Name) and x.id in wnames for x in ast.walk(a.value)) and isinstance(a.value, ast.Call) and seg(a.value.func) in ("np.array", "tuple", "list"):
+                    wnames.add(a.targets[0].id)
+        loops = []
+        for lp in ast.walk(fi.node):
+            if isinstance(lp, ast.For) and isinstance(lp.target, ast.Tuple) and len(lp.target.elts) == 2 and all(isinstance(e, ast.Name) for e in lp.target.elts) and isinstance(lp.iter, ast.Call) and seg(lp.iter.func) == "zip" and len(lp.iter.args) == 2 and all(isinstance(x, ast.Subscript) and isinstance(x.slice, ast.Slice) for x in lp.iter.args):
+                loops.append(lp)
+        for lp in loops:
+            a_, b_ = (e.id for e in lp.target.elts)
+            defs: Dict[str, List[ast.expr]] = {}
+            for s in ast.walk(lp):
+                if isinstance(s, ast.Assign) and len(s.targets) == 1 and isinstance(s.targets[0], ast.Name):
+                    defs.setdefault(s.targets[0].id, []).append(s.value)
+                elif isinstance(s, ast.For) and s is not lp:
+                    # `for k, w in enumerate(weights)` / `for w in weights`: w stands for the weights
+                    for x in ast.walk(s.target):
+                        if isinstance(x, ast.Name):
+                            defs.setdefault(x.id, []).append(s.iter)
+
+            def uses_weights(e, depth=0) -> bool:
+                for x in ast.walk(e):
+                    if isinstance(x, ast.Name):
+                        if x.id in wnames:
+                            return True
+                        if depth < 4 and any(uses_weights(d, depth + 1) for d in defs.get(x.id, [])):
+                            return True
+                return False
+
+            def is_length(e, depth=0) -> bool:
+                """computed from the loop pair only, with a subtraction"""
+                names = {x.id for x in ast.walk(e) if isinstance(x, ast.Name)}
+                if not names:
+                    return False
+                if names <= {a_, b_}:
+                    return any(isinstance(x, ast.BinOp) and isinstance(x.op, ast.Sub) for x in ast.walk(e))
+                if isinstance(e, ast.Name) and depth < 3:
+                    return any(is_length(d, depth + 1) for d in defs.get(e.id, []))
+                return False
+
+            AGG = ("sum", "np.sum", "np.dot", "np.array", "tuple", "list", "map", "zip", "np.prod", "np.tensordot", "enumerate", "math.fsum", "np.multiply", "np.inner")
+
+            def has_factor(e, depth=0) -> bool:
+                """the span length enters e as a multiplicative factor (through arithmetic, aggregating calls and locals of the
+                loop body) — NOT through the argument of an evaluated function: nodes mapped into the span do not count"""
+                if depth > 6:
+                    return False
+                if isinstance(e, ast.BinOp):
+                    if isinstance(e.op, ast.Mult):
+                        return is_length(e.left) or is_length(e.right) or has_factor(e.left, depth + 1) or has_factor(e.right, depth + 1)
+                    if isinstance(e.op, (ast.Add, ast.Sub)):
+                        return has_factor(e.left, depth + 1) or has_factor(e.right, depth + 1)
+                    if isinstance(e.op, ast.Div):
+                        return has_factor(e.left, depth + 1)
+                    return False
+                if isinstance(e, ast.UnaryOp):
+                    return has_factor(e.operand, depth + 1)
+                if isinstance(e, ast.Name):
+                    if e.id in (a_, b_):
+                        return False
+                    return any(has_factor(d, depth + 1) for d in defs.get(e.id, []))
+                if isinstance(e, ast.Subscript):
+                    return has_factor(e.value, depth + 1)
+                if isinstance(e, (ast.GeneratorExp, ast.ListComp)):
+                    return has_factor(e.elt, depth + 1)
+                if isinstance(e, (ast.Tuple, ast.List)):
+                    return any(has_factor(x, depth + 1) for x in e.elts)
+                if isinstance(e, ast.Call) and seg(e.func) in AGG:
+                    return any(has_factor(a, depth + 1) for a in e.args)
+                return False
+
+            accs = []
+            for s in ast.walk(lp):
+                if isinstance(s, ast.AugAssign) and isinstance(s.op, ast.Add):
+                    accs.append((s, s.value))
+                elif isinstance(s, ast.Expr) and isinstance(s.value, ast.Call) and isinstance(s.value.func, ast.Attribute) and s.value.func.attr == "append" and s.value.args:
+                    accs.append((s, s.value.args[0]))
+            accs = [(s, v) for s, v in accs if uses_weights(v)]
+            if not accs:
+                continue
+            total += 1
+            bad = [s for s, v in accs if not has_factor(v)]
+            chk.ob(rule, f"{q}: span sums of the loop at line {lp.lineno} are multiplied by the span length `{b_} - {a_}`", not bad, loc=r.loc(ctx, bad[0] if bad else lp),
+                   detail="" if not bad else f"{q}: `{seg(bad[0], 60)}` (and {len(bad) - 1} more) add reference-interval quadrature sums of the span [{a_}, {b_}] without the factor `{b_} - {a_}`: every span counts the same whatever its length, so for non-uniform knots the accumulated matrices are not the L2 inner products (the residual of the fit is not L2-orthogonal to the target space) and the error is not the integral of the squared residual",
+                   func=q, construct="span quadrature without the span length")
+    chk.floor(rule, "span-by-span quadrature loops", total, len(quals))
